@@ -81,7 +81,8 @@ def workloads(tier):
     add('fail then rename of a missing file', [[(tq.t_modfail, 'd/g')], [(tq.t_rename_missing, 'q', 'n')]])
     add('success, three workers', [[(tq.t_mod, 'f'), (tq.t_mod, 'd/g')], [(tq.t_mod, 'd/h'), (tq.t_mode, 'f', True)]], ({'backup': 'always'},))
     # one file under two spellings (./f in a -p0 entry, f elsewhere): one worker, one copy
-    for label, s, cfg in list(W[:6]):
+    twice = [w for w in W if len({f for p in w[1] for fp in p.fps for f in fp.files}) < sum(len(fp.files) for p in w[1] for fp in p.fps)]
+    for label, s, cfg in list(W[:3]) + twice[:8]:
         for i in range(len(s)):
             v = [tq.Patch(p.fps, p.reverse, p.strip, p.empty) for p in s]
             v[i] = tq.Patch(s[i].fps, s[i].reverse, 'dot', s[i].empty)
